@@ -179,6 +179,7 @@ func runCheck(o *options, overlay map[string][]byte) (*checkResult, error) {
 		}
 	}
 	w.runFieldInvs(o, res)
+	w.runLemmas(o, res)
 	for _, r := range res.reports {
 		if r.Ctx == nil {
 			continue
